@@ -49,6 +49,21 @@ func ruleBounds(rule string, fns []string) func(*Ctx) {
 		for _, name := range fns {
 			f := c.fn(name)
 			loops := naturalLoops(f)
+			if len(loops) == 0 {
+				// no loop of its own: the scan is another listed function's (GetBounds64 delegating to getBounds)
+				deleg := ""
+				for _, ci := range calls(f) {
+					for _, other := range fns {
+						if other != name && calleeName(c, ci) == other {
+							deleg = other
+						}
+					}
+				}
+				if deleg != "" {
+					c.pass(rule, fmt.Sprintf("%s:%s:delegates", rule, name), f.Pos(), name, "has no scan of its own: it takes the bounds from "+deleg+", which is checked")
+					continue
+				}
+			}
 			if len(loops) != 1 {
 				fatalf("%s: expected exactly one loop, found %d", name, len(loops))
 			}
